@@ -171,7 +171,9 @@ class CylindricalKernel(Kernel):
         if torch.any(r1 > 1.0) or torch.any(r2 > 1.0):
             raise RuntimeError("Cylindrical kernel not defined for data points with radius > 1. Scale your data!")
 
-        a1, a2 = x1.div(r1), x2.div(r2)
+        # The norm of a point with coordinates below sqrt(tiny) underflows to 0: such points are treated like the origin
+        r_min = torch.finfo(x1.dtype).tiny ** 0.5
+        a1, a2 = x1.div(r1.clamp_min(r_min)), x2.div(r2.clamp_min(r_min))
         if not diag:
             gram_mat = a1.matmul(a2.transpose(-2, -1))
             for p in range(self.num_angular_weights):
